@@ -741,6 +741,15 @@ func (c *TermCtx) Int2BV(a *Term, w int) *Term {
 		lim := c.Int(new(big.Int).Lsh(big.NewInt(1), uint(w)))
 		back := c.mk(&Term{Op: "bv2nat", Args: []*Term{t}, Sort: IntSort})
 		c.Axioms = append(c.Axioms, c.Implies(c.And(c.ILe(c.Inti(0), a), c.ILt(a, lim)), c.Eq(back, a)))
+		// int2bv is a ring homomorphism modulo 2^w
+		if (a.Op == "+" || a.Op == "-") && len(a.Args) == 2 {
+			l, r := c.Int2BV(a.Args[0], w), c.Int2BV(a.Args[1], w)
+			if a.Op == "+" {
+				c.Axioms = append(c.Axioms, c.Eq(t, c.BVAdd(l, r)))
+			} else {
+				c.Axioms = append(c.Axioms, c.Eq(t, c.BVSub(l, r)))
+			}
+		}
 		// small values have zero high bits
 		for _, k := range []int{8, 16, 32} {
 			if k < w {
